@@ -216,38 +216,78 @@ def bl5(ctx, R):
             sbranch = s
     if sbranch is None:
         raise AnchorMissing("writer.object_data_size: String branch")
+    def encoding_of(f, scope_stmts, name):
+        """How local `name` is produced: ('direct', codec, fallback-exception) for
+        [s.encode(C) for s in X] with an except-fallback to X, ('helper', qual, shape-of-helper) when a
+        module-level helper does it, else None."""
+        for st in scope_stmts:
+            for n in ast.walk(st):
+                if isinstance(n, ast.Try) and n.body and isinstance(n.body[0], ast.Assign) and any(
+                        isinstance(t, ast.Name) and t.id == name for t in n.body[0].targets):
+                    v = n.body[0].value
+                    codec = None
+                    for x in ast.walk(v):
+                        if isinstance(x, ast.Call) and isinstance(x.func, ast.Attribute) and x.func.attr == "encode" and x.args:
+                            codec = prog.try_fold(x.args[0], f.module)
+                    h = n.handlers[0] if n.handlers else None
+                    fb = unparse(h.type) if h is not None and h.type is not None else None
+                    per_value = isinstance(v, (ast.ListComp, ast.GeneratorExp)) and codec is not None
+                    return ("direct", codec, fb, per_value)
+                if isinstance(n, ast.Assign) and any(isinstance(t, ast.Name) and t.id == name for t in n.targets) and isinstance(n.value, ast.Call):
+                    r = prog.resolve_expr(f.module, n.value.func)
+                    if r and r[0] == "func":
+                        h = r[1]
+                        rets_h = [x for x in walk_body(h.node) if isinstance(x, ast.Return) and x.value is not None]
+                        nm = [x.value.id for x in rets_h if isinstance(x.value, ast.Name)]
+                        inner = encoding_of(h, h.node.body, nm[0]) if nm else None
+                        if inner is None and rets_h and ".encode(" in unparse(h.node):
+                            inner = ("direct", "?", None, False)
+                        return ("helper", h.qual, inner)
+        return None
+
+    def all_encoding_names(f, scope_stmts, expr):
+        out = []
+        for nm in {x.id for x in ast.walk(expr) if isinstance(x, ast.Name)}:
+            e = encoding_of(f, scope_stmts, nm)
+            if e is not None:
+                out.append(e)
+        return out
     rets = [n for st in sbranch.body for n in walk_shallow(st) if isinstance(n, ast.Return)]
+    enc_ods = None
     for r in rets:
         txt = unparse(r.value)
-        names = {x.id for x in ast.walk(r.value) if isinstance(x, ast.Name)}
-        enc_ok = False
-        for nm in names:
-            for st in sbranch.body:
-                for n in walk_shallow(st):
-                    if isinstance(n, ast.Assign) and any(isinstance(t, ast.Name) and t.id == nm for t in n.targets) and ".encode(" in unparse(n.value):
-                        enc_ok = True
+        encs = all_encoding_names(ods, sbranch.body, r.value)
+        enc_ods = encs[0] if encs else enc_ods
         four = any(isinstance(x, ast.Constant) and x.value == 4 for x in ast.walk(r.value))
-        R.check(enc_ok and "len(" in txt and four, "writer.object_data_size::string size `%s`" % txt[:50], ods.where(r),
+        R.check(bool(encs) and "len(" in txt and four, "writer.object_data_size::string size `%s`" % txt[:50], ods.where(r),
                 "4 bytes offset + len(encoded string) per value",
                 "the declared size of string data (`%s`) is not computed from the encoded (UTF-8) byte strings plus a 4-byte offset each, which is "
                 "what write_string_values writes: multi-byte characters make the declared size differ from the bytes written" % txt)
+    # write side: the strings written are produced the same way
+    enc_wsv = None
+    for n in walk_body(wsv.node):
+        if isinstance(n, ast.For) and isinstance(n.iter, ast.Name):
+            e = encoding_of(wsv, wsv.node.body, n.iter.id)
+            if e is not None:
+                enc_wsv = e
 
-    def enc_shape(f):
-        for n in walk_body(f.node):
-            if isinstance(n, ast.Try):
-                body = unparse(n.body[0]) if n.body else ""
-                h = n.handlers[0] if n.handlers else None
-                codec = None
-                for x in ast.walk(n.body[0]):
-                    if isinstance(x, ast.Call) and isinstance(x.func, ast.Attribute) and x.func.attr == "encode" and x.args:
-                        codec = prog.try_fold(x.args[0], f.module)
-                return (codec, unparse(h.type) if h is not None and h.type is not None else None, isinstance(n.body[0], ast.Assign) and isinstance(n.body[0].value, ast.ListComp))
-        return None
-    e1, e2 = enc_shape(ods), enc_shape(wsv)
-    R.check(e1 is not None and e1 == e2 and e1[0] == "utf-8" and e1[2], "writer.object_data_size/write_string_values::same encoding", ods.where(),
-            "both encode each value with str.encode('utf-8') and fall back to the given bytes on AttributeError",
-            "size computation and writing encode string values differently (%s vs %s)" % (e1, e2))
-    for f in (ods, wsv):
+    def canon(e):
+        if e is None:
+            return None
+        if e[0] == "helper":
+            return ("helper", e[1])
+        return e
+    good = enc_ods is not None and canon(enc_ods) == canon(enc_wsv)
+    if good and enc_ods[0] == "direct":
+        good = enc_ods[1] == "utf-8" and enc_ods[3]
+    if good and enc_ods[0] == "helper":
+        inner = enc_ods[2]
+        good = inner is not None and inner[0] == "direct" and inner[1] in ("utf-8", "?") and (inner[3] or inner[1] == "?")
+    R.check(good, "writer.object_data_size/write_string_values::same encoding", ods.where(),
+            "both sides obtain the byte strings the same way: str.encode('utf-8') per value, falling back to the given bytes",
+            "size computation and writing encode string values differently, or not per value with UTF-8 (%s vs %s)" % (enc_ods, enc_wsv))
+    helper_funcs = [prog.functions[e[1]] for e in (enc_ods, enc_wsv) if e is not None and e[0] == "helper" and e[1] in prog.functions]
+    for f in [ods, wsv] + helper_funcs:
         bad = [x for x in ast.walk(f.node) if (isinstance(x, ast.Attribute) and dotted(x) in ("np.char", "np.str_", "np.bytes_", "np.unicode_"))
                or (isinstance(x, ast.Call) and call_name(x) in ("np.char.encode", "np.char.str_len", "np.asarray") and "str" in unparse(x))]
         R.check(not bad, "%s::no fixed-width NumPy strings" % f.qual, f.where(),
